@@ -13,9 +13,15 @@
 (***************************************************************************)
 EXTENDS Naturals, Sequences, FiniteSets
 
-CONSTANTS Recipes,     \* set of abstract inner responses [status, headers, body]
+CONSTANTS Recipes,     \* set of abstract inner responses [status, headers, body, fail]; fail = NoFail, or the number of body
+                       \* chunks the inner application produces before it raises
           MaxDepth,
-          FoldAll      \* TRUE: also Set-Cookie lines are folded (the original mechanism; witness)
+          FoldAll,     \* TRUE: also Set-Cookie lines are folded (the original mechanism; witness)
+          Lazy         \* TRUE: a layer pulls the inner body while it is being sent on (baize.wsgi); FALSE: it runs the inner
+                       \* application to completion into a buffer first (baize.asgi - known finding: a failure after the
+                       \* response started takes the already produced part with it)
+
+NoFail == 99
 
 VARIABLES recipe, stack, level, cur, calls
 vars == <<recipe, stack, level, cur, calls>>
@@ -68,13 +74,21 @@ Concat(b) == b     \* chunk tokens are opaque: the byte string is determined by 
 AllId == \A i \in 1..Len(stack) : stack[i] = "id"
 NoDupPlain(r) == \A i, j \in 1..Len(r.headers) : (i # j /\ r.headers[i][1] = r.headers[j][1]) => IsCookie(r.headers[i])
 
+\* what reaches the client of a bare / wrapped application whose body producer fails after `fail` chunks
+ClientSees(r, wrapped) ==
+  IF r.fail = NoFail THEN <<"complete", r.status, r.body>>
+  ELSE IF r.fail = 0 \/ (wrapped /\ ~Lazy) THEN <<"failed before any body byte">>
+  ELSE <<"partial", r.status, SubSeq(r.body, 1, r.fail)>>
+\* a failure after the response started: the client gets the same partial response with or without middleware
+LateErrorSame == (Done /\ Len(stack) >= 1) => ClientSees(recipe, TRUE) = ClientSees(recipe, FALSE)
+
 \* identity layers: same status, same header multiset (repeated Set-Cookie lines stay separate), same body bytes
-Transparent == (Done /\ AllId /\ NoDupPlain(recipe)) =>
+Transparent == (Done /\ AllId /\ NoDupPlain(recipe) /\ recipe.fail = NoFail) =>
                   /\ cur.status = recipe.status
                   /\ Multiset(cur.headers) = Multiset(recipe.headers)
                   /\ Concat(cur.body) = Concat(recipe.body)
 \* an editing layer changes only its header
-OnlyThatHeader == (Done /\ NoDupPlain(recipe)) =>
+OnlyThatHeader == (Done /\ NoDupPlain(recipe) /\ recipe.fail = NoFail) =>
                   /\ cur.status = recipe.status /\ Concat(cur.body) = Concat(recipe.body)
                   /\ Multiset(SelectSeq(cur.headers, LAMBDA h : h[1] # "x-mw")) = Multiset(SelectSeq(recipe.headers, LAMBDA h : h[1] # "x-mw"))
                   /\ ((\E i \in 1..Len(stack) : stack[i] = "edit") => \E i \in 1..Len(cur.headers) : cur.headers[i] = <<"x-mw", <<"edited">>>>)
